@@ -20,11 +20,12 @@ Definition cut2 (t : lword) (j : nat) : lword := firstn (j - 1) t ++ skipn (j + 
 Record nstate := { nterm : lword; ncoef : C; nacc : lop; nret : bool }.
 
 Section Ladder.
+Variable small : C -> bool.                              (* the pruning test of `+=` (EQ_TOLERANCE in the code; Cis0 = exact accumulation) *)
 Variable ferm : bool.                                    (* parity = -1 *)
 Variable simp : lword -> C -> C * lword.                 (* the class constructor's _simplify *)
 Variable rec : lword -> C -> lop.                         (* the recursive call *)
 Definition parity : C := if ferm then Cm1 else C1.
-Definition acc_add (acc : lop) (r : lop) : lop := iadd lfeqb small_tol acc r.
+Definition acc_add (acc : lop) (r : lop) : lop := iadd lfeqb small acc r.
 
 Definition step_j (st : nstate) (j : nat) : nstate :=
   if nret st then st else
@@ -53,13 +54,17 @@ Definition nolt_body (t : lword) (c : C) : lop :=
   if nret st then nacc st else acc_add (nacc st) (mk1 simp (nterm st) (ncoef st)).
 End Ladder.
 
-Fixpoint nolt (fuel : nat) (ferm : bool) (simp : lword -> C -> C * lword) (t : lword) (c : C) : lop :=
+Fixpoint nolt (small : C -> bool) (fuel : nat) (ferm : bool) (simp : lword -> C -> C * lword) (t : lword) (c : C) : lop :=
   match fuel with
   | O => []
-  | S fuel' => nolt_body ferm simp (nolt fuel' ferm simp) t c
+  | S fuel' => nolt_body small ferm simp (nolt small fuel' ferm simp) t c
   end.
-Definition no_fermi_term (t : lword) (c : C) : lop := nolt (S (length t)) true fsimplify t c.
-Definition no_bose_term (t : lword) (c : C) : lop := nolt (S (length t)) false bsimplify t c.
+Definition no_fermi_term (t : lword) (c : C) : lop := nolt small_tol (S (length t)) true fsimplify t c.
+Definition no_bose_term (t : lword) (c : C) : lop := nolt small_tol (S (length t)) false bsimplify t c.
+(* the same with exact accumulation (no pruning of small coefficients): the reference of the unbounded theorem *)
+Definition no_fermi_term0 (t : lword) (c : C) : lop := nolt Cis0 (S (length t)) true fsimplify t c.
+Definition normal_ordered_fermi0 (op : lop) : lop :=
+  fold_left (fun acc tc => iadd lfeqb Cis0 acc (no_fermi_term0 (fst tc) (snd tc))) op [].
 
 (* ordered_operator += order_fn(term, coefficient) over operator.terms *)
 Definition normal_ordered_fermi (op : lop) : lop :=
